@@ -271,6 +271,12 @@ func (env *Env) c09SerTail() {
 		return part{fmt.Sprintf("fresh %d-byte buffer {%s}", size, strings.Join(ds, ", ")), func(e *flow.Engine, fn *ssa.Function, msg *flow.Term) pat.M {
 			return func(t *flow.Term, b pat.Bind) bool {
 				t = flow.StripConv(t)
+				// one little-endian integer appended with binary.LittleEndian.AppendUintN
+				if t.Op == flow.OpCall && strings.HasPrefix(t.Name, "le.bytes") && len(want) == 1 && len(t.Args) == 1 {
+					w := want[0]
+					return fmt.Sprintf("le.bytes%d", size*8) == t.Name && w.lo == 0 && w.hi == size && w.kind == fmt.Sprintf("u%d", size*8) &&
+						flow.Eq(flow.StripConv(t.Args[0]), fieldT(msg, w.field))
+				}
 				if t.Op == flow.OpSlice {
 					t = flow.StripConv(t.Args[0])
 				}
